@@ -42,6 +42,8 @@ func runC02(c *Ctx, r *Report) {
 	importRules(c, r, "C05", []string{"R-C05.13"}, "R-C02.14")
 	r.Doc("R-C02.15", "a loader that takes the heads from the manifest hands on only entries its walk from those heads returned (an entry added from a list the caller holds is referenced by nothing and is no head)")
 	snapshotEntriesComeFromTheWalk(c, r, "R-C02.15")
+	r.Doc("R-C02.16", "the constructor derives the heads for the log it builds, not for the caller's options: no field of an options struct handed in is filled with a value computed from another of its fields (a reused options value with other entries would otherwise yield a log whose heads are the previous log's)")
+	optionsHoldNoDerivedData(c, r, "R-C02.16")
 	r.Doc("R-C02.9", "the predecessor index that decides which entries are referenced is keyed by predecessor links of the filed entry (not by its references, not by another list)")
 	indexKeys(c, r, "R-C02.9")
 
